@@ -378,6 +378,12 @@ func (se *specEnv) evalIdent(name string) (specVal, error) {
 		if v, ok := se.localByName(name); ok {
 			return v, nil
 		}
+		// inside an inlined helper: names of the functions it is inlined into
+		for k := len(se.e.fnStack) - 1; k >= 0; k-- {
+			if v, ok := se.e.nameInFunc(se.e.fnStack[k], name); ok {
+				return v, nil
+			}
+		}
 	}
 	// package-level objects
 	if se.pkg != nil {
@@ -434,6 +440,22 @@ func (se *specEnv) objVal(obj types.Object) (specVal, error) {
 // localByName finds a source-level variable: a phi of the current loop header, any phi, or an Alloc.
 func (se *specEnv) localByName(name string) (specVal, bool) {
 	e := se.e
+	if se.loop != nil && name == "rangebound" {
+		// the bound of a range-over-integer loop: the right operand of the `next < bound` test on the back edge
+		for _, bk := range se.loop.backs {
+			if len(bk.Instrs) == 0 {
+				continue
+			}
+			if ifi, ok := bk.Instrs[len(bk.Instrs)-1].(*ssa.If); ok {
+				if b, ok := ifi.Cond.(*ssa.BinOp); ok && b.Op == token.LSS {
+					if t, ok := e.vals[b.Y]; ok {
+						return specVal{t: t, typ: b.Y.Type()}, true
+					}
+				}
+			}
+		}
+		return specVal{}, false
+	}
 	if se.loop != nil && name == "rangeexpr" {
 		// the slice a range loop iterates over: the operand of the len() the loop header compares the index with
 		for _, ins := range se.loop.header.Instrs {
@@ -1384,4 +1406,41 @@ func frameAsStore(body, q string) (string, bool) {
 		return "", false
 	}
 	return fmt.Sprintf("(= %s (store %s %s (select %s %s)))", a, b, ex, a, ex), true
+}
+
+
+// nameInFunc: the value last bound (in execution order so far) to source variable `name` in fn, or fn's
+// parameter of that name.
+func (e *Enc) nameInFunc(fn *ssa.Function, name string) (specVal, bool) {
+	for _, p := range fn.Params {
+		if p.Name() == name {
+			if t, ok := e.vals[p]; ok {
+				return specVal{t: t, typ: p.Type()}, true
+			}
+		}
+	}
+	best := 0
+	var pick *ssa.DebugRef
+	for _, b := range fn.Blocks {
+		for _, ins := range b.Instrs {
+			d, ok := ins.(*ssa.DebugRef)
+			if !ok || d.IsAddr {
+				continue
+			}
+			id, ok := d.Expr.(*ast.Ident)
+			if !ok || id.Name != name {
+				continue
+			}
+			if _, defined := e.vals[d.X]; !defined {
+				continue
+			}
+			if seq := e.debugSeen[d]; seq > best {
+				best, pick = seq, d
+			}
+		}
+	}
+	if pick != nil {
+		return specVal{t: e.vals[pick.X], typ: pick.X.Type()}, true
+	}
+	return specVal{}, false
 }
